@@ -110,6 +110,53 @@ def run(rep, tier, seed):
         rep.compared += 1
         if r != got and len(rep.broken) < 5:
             rep.broken.append('correspondence C04: table %r text %r model %r implementation %r' % (T, text, r, got))
+    # chains of overlapping names: L ends with the first words of M, M contains an operator word and ends
+    # with a known name S; in "L <rest of M>" the longest (leftmost on a tie) match L wins, the operator word
+    # of M becomes an operator and S stands as a complete operand
+    nchain = 600 if tier == 'thorough' else 120
+    wpool = ['apache', '2.0', 'mit', 'gpl', 'zlib', 'png', 'bsd', 'cc', 'by', 'x11']
+    reqs2, metas2 = [], []
+    for _ in range(nchain):
+        w = rng.sample(wpool, 6)
+        op1, op2 = rng.choice(['or', 'and', 'with']), rng.choice(['or', 'and'])
+        shared = w[2:3] if rng.random() < 0.7 else w[2:4]
+        tail = [w[4]] if rng.random() < 0.7 else [w[4], w[5]]
+        Lname = ' '.join(w[0:2] + [op1] + shared)
+        Mname = ' '.join(shared + [op2] + tail)
+        Sname = ' '.join(tail)
+        if len(Lname) < len(Mname):
+            continue
+        T = [('k-long', [Lname], False), ('k-mid', [Mname], False), (Sname.upper(), [], False)]
+        if not gen.table_ok(T):
+            continue
+        text = gen.vary_name(rng, Lname + ' ' + op2 + ' ' + Sname)
+        if ''.join(c.lower() for c in text) != text.lower():
+            continue
+        # "longest" is measured on the text: keep the case only when the span of L is not shorter than the span of M
+        from props import c16
+        occ = {v: (a, b) for a, b, _s, v in c16.brute([(Lname, 'L'), (Mname, 'M')], text)}
+        if 'L' not in occ or 'M' not in occ or (occ['L'][1] - occ['L'][0]) < (occ['M'][1] - occ['M'][0]):
+            rep.count('overlap_chains_skipped')
+            continue
+        X1 = [0, [0, [enc_str('k-long'), 0]]]
+        X2 = [0, [0, [enc_str(Sname.upper()), 0]]]
+        exp = [1 if op2 == 'and' else 2, [X1, X2]]
+        reqs2.append((4, [enc_table(T), 0, 0, 0, enc_str(text)]))
+        metas2.append((T, text, exp))
+    res2 = run_model(reqs2)
+    for (T, text, exp), r in zip(metas2, res2):
+        L = make_licensing(T)
+        got = parsing.parse_outcome(L, text)
+        rep.case((repr(T), text), nontrivial=True, sample={'table': T, 'text': text, 'expected': str(build_expr(exp))})
+        rep.count('overlap_chains')
+        if got != [0, [exp]]:
+            rep.violations.append({'key': 'recognise', 'kind': 'text', 'table': T, 'text': text, 'expected': exp,
+                                   'what': 'overlapping names: the longest (leftmost) match must win and the following '
+                                           'known name must be resolved: %r' % (got,)})
+            continue
+        rep.compared += 1
+        if r != got and len(rep.broken) < 5:
+            rep.broken.append('correspondence C04/chain: table %r text %r model %r implementation %r' % (T, text, r, got))
     # operator words inside longer words are not operators; longest wins, leftmost on a tie
     probes = [
         ([('mit', [], False)], 'orgpl and android', [1, [[0, [0, [enc_str('orgpl'), 0]]], [0, [0, [enc_str('android'), 0]]]]]),
